@@ -92,7 +92,8 @@ def projsin_formulae(ctx, crate):
         ctx.undecided(clause, "ProjSIN", "type or methods not found"); return
     fl = [f["name"] for f in crate.adts[P]["variants"][0]["fields"]]
     S = ('deref', param('self'))
-    pts = [((1.0, 0.3), (1.2, 0.5)), ((1.0, 0.3), (4.0, -0.2)), ((0.1, -1.2), (6.0, -1.0)), ((3.0, 1.4), (0.5, 1.3)), ((5.5, 0.0), (5.5, 0.0)), ((2.0, 0.7), (2.0 + math.pi, -0.7 + 0.05))]
+    pts = [((1.0, 0.3), (1.2, 0.5)), ((1.0, 0.3), (4.0, -0.2)), ((0.1, -1.2), (6.0, -1.0)), ((3.0, 1.4), (0.5, 1.3)), ((5.5, 0.0), (5.5, 0.0)), ((2.0, 0.7), (2.0 + math.pi, -0.7 + 0.05)),
+           ((2.0, 1.2), (2.0, -0.5)), ((0.5, -1.3), (0.5, 0.4)), ((4.0, 1.0), (4.3, -0.7)), ((1.0, -0.9), (1.0, 0.55))]     # just beyond the visible hemisphere of a high-latitude centre
     for kind, names in fns.items():
         fn = names[0]
         b = ctx.anchor(crate, fn, clause)
